@@ -322,7 +322,9 @@ Inductive obs :=
 | OFedT (fed : list bytes)                           (* values a recording source handed to the sketch *)
 | OFedN (fed : list Z)
 | OTerms (buckets : list (bytes * list obs)) (other : Z)   (* Buckets() in returned order, Other() *)
-| OBuckets (buckets : list (list obs)).
+| OBuckets (buckets : list (list obs))
+| OSketch.   (* a sketch calculator inside a bucket: only its estimate is observable there; it is
+                judged by the engine's oracle against a sketch fed the bucket's values directly *)
 
 (* the observed float equals the exact value, or, for a quotient, is within half an ulp
    (relative 2^-53) of it *)
@@ -381,6 +383,8 @@ Fixpoint check_obs (a : agg) (finished : bool) (k : calc) (o : obs) {struct a} :
   match a, k, o with
   | ASingle _ _ _, KVal v, OVal bits => xq_eqb v (xq_of_bits bits)
   | AWAvg _ _, KWAvg _ _, OVal bits => approx_eqb (calc_value k) (xq_of_bits bits)
+  | ACard _, KFedT _, OSketch => true
+  | AQuant _, KFedN _, OSketch => true
   | ACard _, KFedT fed, OFedT ofed => list_eqb beqb fed ofed
   | AQuant _, KFedN fed, OFedN ofed => list_eqb xq_eqb fed (map xq_of_bits ofed)
   | ATerms _ size subs, KTerms bks total, OTerms obks other =>
